@@ -302,13 +302,21 @@ class Clock:
 
 
 class JsonShim:
-    """stands in for the `json` module inside syne_tune.report while `retrieve` runs"""
+    """stands in for the `json` module inside syne_tune.report while `retrieve` runs;
+    `lenient`: an undecodable group does not abort `retrieve` (used to observe all groups the
+    regular expression finds in hostile text)"""
 
-    def __init__(self):
+    def __init__(self, lenient=False):
         self.groups = []
+        self.lenient = lenient
 
     def loads(self, s, *a, **kw):
         self.groups.append(s)
+        if self.lenient:
+            try:
+                return json.loads(s, *a, **kw)
+            except ValueError:
+                return None
         return json.loads(s, *a, **kw)
 
     def __getattr__(self, name):
@@ -358,9 +366,9 @@ def lines_for(text, how):
     return [text]  # "text": a single element, i.e. the regex on the raw text
 
 
-def real_retrieve(lines):
+def real_retrieve(lines, lenient=False):
     """real `retrieve`; returns (dicts | None, regex groups it decoded, exception name | None)"""
-    shim = JsonShim()
+    shim = JsonShim(lenient)
     saved = R.json
     R.json = shim
     try:
@@ -485,6 +493,16 @@ def run_scenario(spec):
         else:
             out["_err"] = err
         lines.append(({"op": "retrieve", "how": how}, out))
+    for sc in spec.get("scans", []):
+        # hostile text: only the regular expression is compared (model scanner vs re.findall inside retrieve)
+        ls = sc["lines"]
+        if sc.get("local"):
+            ls_real = read_like_local_backend("\n".join(ls))
+        else:
+            ls_real = ls
+        _, groups, _ = real_retrieve(ls_real, lenient=True)
+        lines.append(({"op": "scan", "lines": [cps(l) for l in ls], "local": bool(sc.get("local"))},
+                      {"found": [cps(g) for g in groups]}))
     return {"lines": lines, "calls": calls, "text": text, "retrieved": retrieved,
             "dollar_cost": dollar}
 
@@ -536,6 +554,11 @@ def compare(inp, impl, model):
                 return f"report: {k}: impl {a} model {b}"
         if not _approx_dict(impl["dict"], mo.get("dict"), cost_key):
             return f"report: dictionary: json.loads(payload) {json.dumps(impl['dict'])[:400]} model {json.dumps(mo.get('dict'))[:400]}"
+        return None
+    if op == "scan":
+        if mo.get("found") != impl["found"]:
+            return (f"scan: regex groups differ: impl {[from_cps(g)[:80] for g in impl['found']]} "
+                    f"model {[from_cps(g)[:80] for g in mo.get('found', [])]}")
         return None
     if op == "retrieve":
         if mo.get("found") != impl["found"]:
